@@ -21,15 +21,37 @@ from . import node as nodemod
 T = tlc.tla
 
 ALL_KINDS = ["CER", "CEA", "DWR", "DWA", "DPR", "DPA", "REQ", "ANS", "MIS"]
-PROPS = ["OpenOnlyAfterCapx", "DeliveredOnlyWhileOpen", "OneDPR", "NoDPRWhileClosing", "DPRAnswered", "PeerDiscCloses",
-         "NonCeaCloses", "WatchdogOnIdle", "KeepsTicking", "AnswersEcho"]
+PROPS = ["OpenOnlyAfterCapx", "DeliveredOnlyWhileOpen", "OneDPR", "NoDPRWhileClosing", "StopQueuesDPR", "BacklogLeaves", "DPRAnswered",
+         "PeerDiscCloses", "NonCeaCloses", "WatchdogOnIdle", "KeepsTicking", "AnswersEcho"]
 DEVIATIONS = {"D_NoReturnAfterRelease": "OneDPR", "D_MisaddressedKills": "KeepsTicking", "D_EofIgnored": "PeerDiscCloses",
-              "D_RefusedSpins": "KeepsTicking"}
+              "D_RefusedSpins": "KeepsTicking", "D_ClosingKeepsBacklog": "BacklogLeaves"}
+
+LIMIT = 600          # batch limit used on the real node (bromelia.setup.SEND_BUFFER_MAXIMUM_SIZE) and in the model
+APP_SIZE = 330       # Class AVP payload of the application messages submitted by AppSend
+_sizes = {}
 
 
-def cfg(role, kinds, ids, maxq, dev="{}", props=True, valid_only=False):
+def sizes():
+    """encoded sizes of the messages a node emits, measured on the real objects (they are constants of the model)"""
+    if not _sizes:
+        from . import assoc
+        for role in ("client", "server"):
+            n = nodemod.Node(role, seed=0)
+            try:
+                b = n.d._base
+                _sizes[role] = {"SzCER": len(b.cer.dump()), "SzCEA": len(b.cea.dump()), "SzDWR": len(b.dwr.dump()), "SzDWA": len(b.dwa.dump()),
+                                "SzDPR": len(b.dpr.dump()), "SzDPA": len(b.dpa.dump()), "SzApp": len(assoc.app_request(1, APP_SIZE).dump())}
+            finally:
+                n.s.kill_all()
+    return _sizes
+
+
+def cfg(role, kinds, ids, maxq, dev="{}", props=True, valid_only=False, maxs=0):
+    sz = sizes()[role]
     c = (f'SPECIFICATION Spec\nCONSTANTS Role = "{role}"\n Kinds = {{{", ".join(T(k) for k in kinds)}}}\n IdSet = {{{", ".join(map(str, ids))}}}\n'
-         f" MaxQ = {maxq}\n ValidOnly = {'TRUE' if valid_only else 'FALSE'}\n Deviations = {dev}\nINVARIANT TypeOK\nINVARIANT ClosedImpliesReleased\n")
+         f" MaxQ = {maxq}\n ValidOnly = {'TRUE' if valid_only else 'FALSE'}\n MaxS = {maxs}\n Limit = {LIMIT}\n"
+         + "".join(f" {k} = {v}\n" for k, v in sz.items()) +
+         f" Deviations = {dev}\nINVARIANT TypeOK\nINVARIANT ClosedImpliesReleased\n")
     if props:
         c += "".join(f"PROPERTY {p}\n" for p in PROPS)
     return c + "CHECK_DEADLOCK FALSE\n"
@@ -45,6 +67,8 @@ class PsmAdapter:
         self.flavour = role
 
     def fresh(self):
+        import bromelia.setup as bs
+        bs.SEND_BUFFER_MAXIMUM_SIZE = LIMIT
         h = Handle()
         h.node = nodemod.Node(self.role, seed=0, watchdog=self.watchdog)
         h.objs = {}
@@ -73,6 +97,9 @@ class PsmAdapter:
             h.objs[id(obj)] = (m["k"], m["valid"], m["id"])
             h.keep = getattr(h, "keep", []) + [obj]
             n.inject(obj)
+        elif op == "AppSend":
+            from . import assoc
+            n.d.send_message(assoc.app_request(1, APP_SIZE))
         elif op == "LocalStop":
             n.d.close()
         elif op == "PeerDisc":
@@ -94,13 +121,20 @@ class PsmAdapter:
         out = []
         for m in n.take_sent():
             k = n.classify(m)
-            i = 0 if k in ("CER", "DWR", "DPR") else n.id_of(m)
+            if k in ("REQ", "ANS"):
+                k = "APP"                # submitted by the application
+            i = 0 if k in ("CER", "DWR", "DPR", "APP") else n.id_of(m)
             if k in ("CEA", "DWA", "DPA") and not self.answer_ok(n, m):
                 i = -9          # a base answer without the local origin / a Result-Code / with the R flag
             out.append((k, i))
         dlv = [(n.classify(m), n.id_of(m)) for m in n.take_delivered()]
         recvq = [h.objs.get(id(x), ("?", False, -1)) for x in (a._recv_messages.items if a is not None else [])]
-        return {"st": n.state(), "recvQ": recvq, "active": bool(a.state_is_active) if a is not None else False,
+        sendq = []
+        for m in (a._send_messages.items if a is not None else []):
+            k = n.classify(m)
+            k = "APP" if k in ("REQ", "ANS") else k
+            sendq.append((k, 0 if k in ("CER", "DWR", "DPR", "APP") else n.id_of(m)))
+        return {"st": n.state(), "recvQ": recvq, "sendQ": sendq, "active": bool(a.state_is_active) if a is not None else False,
                 "peerGone": bool(tr is not None and tr._stop_threads),
                 "connected": bool(a is not None and a.is_connected()),
                 "refused": bool(n.sock.refused) if n.sock is not None else False,
@@ -121,7 +155,7 @@ class PsmAdapter:
 
     @staticmethod
     def spec_view(s):
-        return {"st": s["st"], "recvQ": [(m["k"], m["valid"], m["id"]) for m in s["recvQ"]], "active": s["active"], "peerGone": s["peerGone"],
+        return {"st": s["st"], "recvQ": [(m["k"], m["valid"], m["id"]) for m in s["recvQ"]], "sendQ": [(m["k"], m["id"]) for m in s["sendQ"]], "active": s["active"], "peerGone": s["peerGone"],
                 "connected": s["connected"], "refused": s["refused"], "idle": s["idle"], "running": s["running"], "released": s["released"],
                 "out": [(m["k"], m["id"]) for m in s["out"]], "dlv": [(m["k"], m["id"]) for m in s["dlv"]]}
 
@@ -136,7 +170,8 @@ class PsmAdapter:
         if p["dead"]:
             bad.append(f"thread(s) died: {p['dead']}")
         for k, what in (("st", "reported state"), ("out", "messages written to the socket"), ("dlv", "messages handed to the application"),
-                        ("running", "state machine thread alive"), ("released", "transport released"), ("recvQ", "receive queue")):
+                        ("running", "state machine thread alive"), ("released", "transport released"), ("recvQ", "receive queue"),
+                        ("sendQ", "send queue")):
             if all(x[k] != p[k] for x in exp):
                 bad.append(f"{what}: node {p[k]}, specification {e[k]}")
         if not bad:
@@ -149,15 +184,15 @@ class PsmAdapter:
 
 def model_check(rep, role, kinds, ids, maxq, dump=None, wd=None):
     args = ["-dump", "dot,actionlabels", dump] if dump else []
-    res, _ = tlc.run("Psm", cfg(role, kinds, ids, maxq), wd=wd, workers=8, args=args, timeout=2400)
+    res, _ = tlc.run("Psm", cfg(role, kinds, ids, maxq, maxs=2), wd=wd, workers=8, args=args, timeout=2400)
     tlc.must_ok(res, f"Psm {role}")
-    rep.tlc(f"Psm {role} kinds={len(kinds)} ids={len(ids)} MaxQ={maxq}", res)
+    rep.tlc(f"Psm {role} kinds={len(kinds)} ids={len(ids)} MaxQ={maxq} MaxS=2", res)
     return res
 
 
 def deviations_violate(rep):
     for dev, prop in DEVIATIONS.items():
-        res, _ = tlc.run("Psm", cfg("client", ALL_KINDS, [1], 2, dev='{"%s"}' % dev), workers=4, timeout=900)
+        res, _ = tlc.run("Psm", cfg("client", ALL_KINDS, [1], 2, dev='{"%s"}' % dev, maxs=2), workers=4, timeout=900)
         if not res.violated or res.violated in ("TypeOK", "deadlock"):
             raise tlc.TlcError(f"vacuity self-test: deviation {dev} violates {res.violated}, expected a property such as {prop}")
         rep.notes.setdefault("deviations_shown_to_violate", {})[dev] = res.violated
@@ -190,8 +225,9 @@ def run_tours(rep, jobs):
 def run(rep, for_c07=False):
     nodemod.ensure_installed(rep.seed)
     quick = rep.tier == "quick"
-    rep.rule = ("TLC: peer state machine, both roles, 14 injectable message values (valid/invalid base messages, application request/answer, "
-                "misaddressed request), receive queue <= 2, all events enabled in every state, 11 action properties; G: every (reached state, "
+    rep.rule = ("TLC: peer state machine with its send queue, both roles, 14 injectable message values (valid/invalid base messages, application "
+                "request/answer, misaddressed request), receive queue <= 2, up to 2 application messages waiting to be sent (batch limit "
+                "600 bytes), all events enabled in every state, 13 action properties; G: every (reached state, "
                 "event) group of the dumped graph exercised on the real threaded node by edge-covering tours. distinct = (state, event) groups")
     deviations_violate(rep)
     wd = tlc.workdir("MC_Psm")
@@ -205,7 +241,7 @@ def run(rep, for_c07=False):
             maxq = 1 if quick else 2
             if for_c07:
                 kinds, maxq = ["CER", "DWR", "DPR", "REQ", "CEA"], 2
-            res, _ = tlc.run("Psm", cfg(role, kinds, [1, 2] if for_c07 else [1], maxq, props=for_c07, valid_only=for_c07), wd=wd, workers=8,
+            res, _ = tlc.run("Psm", cfg(role, kinds, [1, 2] if for_c07 else [1], maxq, props=for_c07, valid_only=for_c07, maxs=2), wd=wd, workers=8,
                              args=["-dump", "dot,actionlabels", dot], timeout=2400)
             tlc.must_ok(res, f"Psm dump {role}")
             rep.tlc(f"Psm dump {role}", res)
